@@ -170,7 +170,7 @@ def build_incremental(env, cls, cfg, faults=None, ctor_kwargs=None):
     names = names_for(cfg.get('names', 'str'), d)
     labels = LABELSETS[cfg.get('labels', 1)]
     model = UFModel(env, names, labels=labels, faults=faults, reads=cfg.get('_reads'),
-                    varying_labels=cfg.get('varlabels', False))
+                    varying_labels=cfg.get('varlabels', False), memoise=cfg.get('memoise', False))
     if cfg.get('loss', '').startswith('river:'):
         # a real, stateful river metric turned into a loss by the library's own validator (its purity is C13's subject)
         import river.metrics as _rm
